@@ -263,6 +263,11 @@ func (s *Scanner) scan() (tok int, pos Pos, lit string) {
 		ch0 = s.r.peek()
 	}
 
+	if node == &ruleTable {
+		// No rule accepts this character: consume it as the invalid token,
+		// so that a caller looping on scan() always makes progress.
+		s.r.inc()
+	}
 	tok, lit = node.token, s.r.data(&pos)
 	return
 }
